@@ -90,6 +90,9 @@ ContextData(defs, i, kw, prov, inst) ==
                     [] d.k = "clist"   -> [err |-> "", v |-> [k |-> "l", v |-> <<d.v \o "1", d.v \o "2">>]]
                     [] d.k = "kwarg"   -> [err |-> "", v |-> IF HasB(kw, d.a) THEN GetB(kw, d.a) ELSE Str("")]
                     [] d.k = "id"      -> [err |-> "", v |-> Str(ToString(inst))]      \* self.id
+                    \* user code re-seeding Python's global random generator (random.seed(<constant>)): no effect
+                    \* on anything the specification talks about - in particular render ids stay distinct
+                    [] d.k = "seedrng" -> [err |-> "", v |-> Str("")]
                     \* x = self: the template reads {{ x.id }} while it is being rendered
                     [] d.k = "self"    -> [err |-> "", v |-> [k |-> "d", v |-> << <<"id", Str(ToString(inst))>> >>]]
                     [] d.k = "inject"  -> IF inj.k # "u" THEN [err |-> "", v |-> inj]
